@@ -238,6 +238,12 @@ def _main(prop_id, args, seed, t0):
         if not new:
             break
 
+    # ---- engine-specific extra campaign (C20: atheris) -------------------------------------------
+    extra = getattr(mod, "EXTRA", None)
+    if extra is not None and not only:
+        for v in extra(tier, seed, args.jobs, main_rec):
+            violations.append(v)
+
     # ---- report ----------------------------------------------------------------------------
     wall = time.monotonic() - t0
     replay_paths = []
